@@ -79,7 +79,8 @@ def numeric_reference(rng, fault, root, n, sch, position=None):
         return gen.pick(rng, (F(f'qs{n}'), F(f'qb{n}'), F(f'qa{n}'), F(f'qm{n}'))), None
     if fault == 'index-out-of-range':
         k = flen + rng.choice((0, 0, 1, 5))
-        return ('index', F(f'qf{n}'), A.num(str(k))), str(k)
+        spelling = gen.pick(rng, (str(k), str(k), f'{k}.0', f'{k}e0', f'{k}.'))  # any NUMBER literal is a literal index
+        return ('index', F(f'qf{n}'), A.num(spelling)), str(k)
     raise ValueError(fault)
 
 
